@@ -11,7 +11,7 @@ class C03(ProgProp):
     id = "C03"
     report = ("C03", "MODEL")
     cfg = {"p_sync": 0.06, "p_try": 0.06, "p_fault": 0.08, "p_create": 0.3, "p_ref": 0.3, "p_container": 0.45,
-           "item_faults": 0.03}
+           "item_faults": 0.03, "flush_faults": 0.05, "flush_cancels": 0.3, "p_item_value_sync": 0.15, "p_ext_tasks": 0.1}
 
     def gen(self, rng, tier, k):
         if k % 8 == 7:
